@@ -2071,6 +2071,12 @@ func (app *App) findBestStreamFrom(node *mysql.Node, clusterState map[string]*no
 		}
 
 		candidateState := clusterState[streamFrom]
+		if candidateState == nil {
+			// stream_from names a host that is not registered (any more): not a usable source
+			app.logger.Error().Msgf("repair: stream_from host %s of %s is not a registered cluster host", streamFrom, host)
+			loopDetector = append(loopDetector, streamFrom)
+			continue
+		}
 
 		// if cascade node is streaming now from configured host - do nothing
 		if len(loopDetector) == 1 {
